@@ -82,6 +82,130 @@ def _datetime_fields(f, params_name):
     return out
 
 
+class _NoValue(Exception):
+    pass
+
+
+def _const_eval(e, env):
+    """evaluate a guard over concrete date components and literal constants (comparisons, tuples, boolean operators,
+    constant subscripts, + and -); raises _NoValue for anything else"""
+    if isinstance(e, ast.Constant):
+        return e.value
+    if isinstance(e, ast.Name):
+        if e.id in env:
+            return env[e.id]
+        raise _NoValue(e.id)
+    if isinstance(e, ast.Tuple):
+        return tuple(_const_eval(x, env) for x in e.elts)
+    if isinstance(e, ast.Subscript) and isinstance(e.slice, ast.Constant):
+        return _const_eval(e.value, env)[e.slice.value]
+    if isinstance(e, ast.UnaryOp) and isinstance(e.op, ast.Not):
+        return not _const_eval(e.operand, env)
+    if isinstance(e, ast.UnaryOp) and isinstance(e.op, ast.USub):
+        return -_const_eval(e.operand, env)
+    if isinstance(e, ast.BoolOp):
+        vals = [_const_eval(v, env) for v in e.values]
+        return all(vals) if isinstance(e.op, ast.And) else any(vals)
+    if isinstance(e, ast.BinOp) and isinstance(e.op, (ast.Add, ast.Sub)):
+        a, b = _const_eval(e.left, env), _const_eval(e.right, env)
+        return a + b if isinstance(e.op, ast.Add) else a - b
+    if isinstance(e, ast.Compare):
+        left = _const_eval(e.left, env)
+        for op, c in zip(e.ops, e.comparators):
+            right = _const_eval(c, env)
+            ok = {ast.Lt: left < right, ast.LtE: left <= right, ast.Gt: left > right, ast.GtE: left >= right,
+                  ast.Eq: left == right, ast.NotEq: left != right}.get(type(op)) if not isinstance(op, (ast.In, ast.NotIn, ast.Is, ast.IsNot)) else None
+            if ok is None:
+                if isinstance(op, ast.In):
+                    ok = left in right
+                elif isinstance(op, ast.NotIn):
+                    ok = left not in right
+                else:
+                    raise _NoValue("is")
+            if not ok:
+                return False
+            left = right
+        return True
+    raise _NoValue(type(e).__name__)
+
+
+def _third_party_constant(module, name):
+    """literal value of NAME = <literal> in an installed third-party module, read from its source without importing it"""
+    import importlib.util
+    try:
+        spec = importlib.util.find_spec(module)
+    except Exception:
+        return None
+    if spec is None or not spec.origin or not spec.origin.endswith(".py"):
+        return None
+    try:
+        tree = ast.parse(open(spec.origin, encoding="utf-8").read())
+    except Exception:
+        return None
+    for n in tree.body:
+        tg = n.targets[0] if isinstance(n, ast.Assign) and len(n.targets) == 1 else n.target if isinstance(n, ast.AnnAssign) else None
+        if isinstance(tg, ast.Name) and tg.id == name and getattr(n, "value", None) is not None:
+            try:
+                return ast.literal_eval(n.value)
+            except Exception:
+                return None
+    return None
+
+
+HIJRI_DOMAIN = [(1343, 1, 1), (1343, 1, 2), (1343, 12, 29), (1400, 6, 15), (1433, 2, 30), (1500, 1, 1), (1500, 12, 29), (1500, 12, 30)]
+JALALI_DOMAIN = [(1200, 1, 1), (1200, 12, 29), (1201, 12, 30), (1348, 1, 31), (1399, 12, 30), (1400, 6, 31), (1500, 1, 1), (1500, 12, 29)]
+
+
+def domain_guard_rule(ctx, chk, rule):
+    """explicit rejections in the converter adapters must not fire inside the property's domain: every `raise` whose guard is
+    a closed expression over (year, month, day) and literal constants is evaluated at the corner dates of the supported ranges"""
+    from ..core.ctx import enclosing_tests
+    n = 0
+    for ckey, domain in (("dateparser.calendars.hijri_parser:hijri", HIJRI_DOMAIN), ("dateparser.calendars.jalali_parser:jalali_parser", JALALI_DOMAIN)):
+        cls = ctx.ix.classes.get(ckey)
+        if cls is None:
+            continue
+        for m in cls.methods.values():
+            if m.name not in ("to_gregorian", "from_gregorian", "month_length"):
+                continue
+            consts = {}
+            for nm, imp in m.module.imports.items():
+                if imp[0] == "attr" and not imp[1].startswith("dateparser"):
+                    v = _third_party_constant(imp[1], imp[2])
+                    if v is not None:
+                        consts[nm] = v
+            for r in [x for x in iter_own_nodes(m.node) if isinstance(x, ast.Raise)]:
+                tests = enclosing_tests(m.node, r)
+                n += 1
+                params = [p for p in m.params() if p not in ("self", "cls")]
+                fired = []
+                evaluable = True
+                for pt in domain:
+                    env = dict(consts)
+                    env.update(dict(zip(("year", "month", "day"), pt)))
+                    for p_, v_ in zip(params, pt):
+                        env[p_] = v_
+                    try:
+                        if all(bool(_const_eval(t, env)) == pol for t, pol in tests):
+                            fired.append(pt)
+                    except _NoValue:
+                        evaluable = False
+                        break
+                if not evaluable:
+                    chk.note("%s: the guard of the raise at line %d is not a closed expression over the date; not decided" % (m.qual, r.lineno))
+                    continue
+                chk.ob(rule, "%s: the rejection at line %d does not fire for a date of the supported range" % (m.qual, r.lineno), not fired,
+                       "raises for %s, which lies inside the range the property quantifies over (the parser then returns None)" % fired[:3],
+                       key={"function": m.key, "construct": "rejection inside the domain"}, file=m.file, function=m.qual, line=r.lineno,
+                       text=" ".join(ast.unparse(tests[0][0]).split())[:100] if tests else "")
+    chk.extra["domain_guards_examined"] = n
+    # the rule normally matches nothing: keep a positive example so that a silent evaluator is noticed
+    probe = ast.parse("not R[0] <= (year, month, day) < R[1]", mode="eval").body
+    env = {"R": ((1343, 1, 1), (1500, 12, 30)), "year": 1500, "month": 12, "day": 30}
+    if not (_const_eval(probe, env) is True and _const_eval(probe, dict(env, day=29)) is False):
+        raise AnalysisError(rule, "the guard evaluator no longer recognises the half-open range example")
+
+
 def _attr_literal(cls, name, rule):
     v = cls.attrs.get(name)
     if v is None:
@@ -404,6 +528,7 @@ def r3(ctx, chk):
         chk.ob(rule4, "%s.default_month is the first month (the longest one in both calendars: 31 / 30 days)" % cls_.name, ok,
                "default_month = %s" % (ast.unparse(dm) if dm is not None else None),
                key={"function": cls_.key, "construct": "default month is a longest month"}, file=cls_.module.rel, function=cls_.name, line=None)
+    domain_guard_rule(ctx, chk, "C15.R5")
     # parse applies to_latin first and then the generic parser
     p = ix.func(NG + ".parse")
     t = " ".join(ast.unparse(p.node).split())
